@@ -107,6 +107,11 @@ def findChild (node : Option Tree) (label : Label) : Option (Nat × Tree) :=
 def pointerBytes (data : Nat) : Option Bytes :=
   if data / 256 ≥ 64 then none else some [192 + data / 256, data % 256]
 
+/-- the offset `push_prefix` records for a label it wrote at `off` (a `u16` field): saturating or wrapping,
+    whichever the source does (Generated.Dns.offsetSaturates) -/
+def storeOff (off : Nat) : Nat :=
+  if Generated.Dns.offsetSaturates then min off 65535 else off % 65536
+
 def setChild (node : Option Tree) (i : Nat) (c : Tree) : Option Tree :=
   node.map fun n => n.withChildren (n.children.set i c)
 
@@ -116,7 +121,7 @@ def pushPrefixR : List Label → Option Tree → Nat → Option (Bytes × Option
   | [], _, _ => none                                     -- assert!(!l.is_empty())
   | [label], node, off =>
     match findChild node label with
-    | none => (pushLabel label).map fun b => (b, some (.node label (off % 65536) []), node)
+    | none => (pushLabel label).map fun b => (b, some (.node label (storeOff off) []), node)
     | some (_, n) => (pointerBytes n.data).map fun b => (b, none, node)
   | label :: rest, node, off =>
     let child := findChild node label
@@ -129,7 +134,7 @@ def pushPrefixR : List Label → Option Tree → Nat → Option (Bytes × Option
           | some c => setChild node i c
           | none => node)
       | some r, none =>
-        (pushLabel label).map fun b => (bytes ++ b, some (.node label ((off + bytes.length) % 65536) [r]), node)
+        (pushLabel label).map fun b => (bytes ++ b, some (.node label (storeOff (off + bytes.length)) [r]), node)
       | some r, some (i, n0) =>
         let n := (child'.getD n0)
         let n' := n.withChildren (n.children ++ [r])
